@@ -1,1 +1,107 @@
-//! Hooks for property C44.
+//! Hooks for properties C44 / C22 / C45: drive the real multi-market swap router
+//! (`SwapMarkets::revertible_swap`), market seeding through the revertible market, and the
+//! balance validation, over in-memory market accounts.
+use anchor_lang::prelude::*;
+use gmsol_model::{Bank, BaseMarketMut, Pool as _, SwapMarketMut};
+
+use crate::{
+    events::EventEmitter,
+    states::{
+        common::swap::SwapActionParams,
+        market::{
+            revertible::{
+                swap_market::{SwapDirection, SwapMarkets},
+                Revertible, RevertibleMarket, RevertibleVirtualInventories,
+            },
+            utils::ValidateMarketBalances,
+        },
+        Market, Oracle,
+    },
+    ModelError,
+};
+
+/// Set an oracle primary price (crate-private `PriceMap::set`).
+pub fn oracle_set_price(oracle: &mut Oracle, token: &Pubkey, price: gmsol_utils::Price) -> Result<()> {
+    crate::states::oracle::verif_hooks_c24::primary_set(oracle, token, price, false, true)
+}
+
+/// Seed a market: add liquidity / swap-impact amounts and record the same tokens as transferred in.
+#[allow(clippy::too_many_arguments)]
+pub fn seed_market<'info>(
+    loader: &AccountLoader<'info, Market>,
+    event_authority: &AccountInfo<'info>,
+    liquidity: (u128, u128),
+    swap_impact: (u128, u128),
+    balance: (u64, u64),
+) -> Result<()> {
+    let emitter = EventEmitter::new(event_authority, 255);
+    let mut market = RevertibleMarket::new(loader, None, emitter)?;
+    let meta = *market.as_ref().meta();
+    let as_signed = |v: u128| i128::try_from(v).map_err(|_| error!(crate::CoreError::InvalidArgument));
+    let pool = market.liquidity_pool_mut().map_err(ModelError::from)?;
+    pool.apply_delta_to_long_amount(&as_signed(liquidity.0)?).map_err(ModelError::from)?;
+    pool.apply_delta_to_short_amount(&as_signed(liquidity.1)?).map_err(ModelError::from)?;
+    let pool = market.swap_impact_pool_mut().map_err(ModelError::from)?;
+    pool.apply_delta_to_long_amount(&as_signed(swap_impact.0)?).map_err(ModelError::from)?;
+    pool.apply_delta_to_short_amount(&as_signed(swap_impact.1)?).map_err(ModelError::from)?;
+    market
+        .record_transferred_in_by_token(&meta.long_token_mint, &balance.0)
+        .map_err(ModelError::from)?;
+    market
+        .record_transferred_in_by_token(&meta.short_token_mint, &balance.1)
+        .map_err(ModelError::from)?;
+    market.commit();
+    Ok(())
+}
+
+/// `validate_market_balances(long_excluding, short_excluding)` on the stored state.
+pub fn validate_balances<'info>(
+    loader: &AccountLoader<'info, Market>,
+    event_authority: &AccountInfo<'info>,
+    excluding: (u64, u64),
+) -> Result<()> {
+    let emitter = EventEmitter::new(event_authority, 255);
+    let market = RevertibleMarket::new(loader, None, emitter)?;
+    market.validate_market_balances(excluding.0, excluding.1)
+}
+
+/// Run the real router. `into = true` swaps INTO the current market, otherwise FROM it.
+/// All markets are committed on success when `commit` is set; on failure nothing is committed.
+#[allow(clippy::too_many_arguments)]
+pub fn run_swap<'info>(
+    store: &Pubkey,
+    loaders: &'info [AccountLoader<'info, Market>],
+    current: &'info AccountLoader<'info, Market>,
+    oracle: &Oracle,
+    params: &SwapActionParams,
+    into: bool,
+    expected_token_outs: (Pubkey, Pubkey),
+    token_ins: (Option<Pubkey>, Option<Pubkey>),
+    token_in_amounts: (u64, u64),
+    event_authority: &'info AccountInfo<'info>,
+    commit: bool,
+) -> Result<(u64, u64)> {
+    let emitter = EventEmitter::new(event_authority, 255);
+    let vis = RevertibleVirtualInventories::from_loaders(&Default::default())?;
+    let current_token = current.load()?.meta().market_token_mint;
+    let mut swap_markets = SwapMarkets::new(store, loaders, Some(&current_token), &vis, emitter)?;
+    let mut current_market = RevertibleMarket::new(current, Some(&vis), emitter)?;
+    let direction = if into {
+        SwapDirection::Into(&mut current_market)
+    } else {
+        SwapDirection::From(&mut current_market)
+    };
+    let out = swap_markets.revertible_swap(
+        direction,
+        oracle,
+        params,
+        expected_token_outs,
+        token_ins,
+        token_in_amounts,
+    )?;
+    if commit {
+        current_market.commit();
+        swap_markets.commit();
+    }
+    Ok(out)
+}
